@@ -5,6 +5,7 @@
 
 mod alloc;
 mod sio;
+mod specread;
 mod stream;
 mod terms;
 mod util;
